@@ -44,12 +44,156 @@ pub fn all_cfgs() -> Vec<Config> {
     v
 }
 
+/// C01, second family: every layout of 3 (thorough 4) entries over {small (< 128), 128, medium,
+/// large} - which decides by itself which entries end up in sealed blocks and which in the
+/// tail - drained by repeated consuming batch reads with one budget from a menu built around
+/// the entry sizes (each size, one less, one more, sums of two). The budget decides where a
+/// read has to stop inside a block; the FIFO model decides whether anything was skipped.
+pub fn c01_product_spec(tier: &str) -> Spec {
+    let s = sizes();
+    let thorough = tier_is_thorough(tier);
+    let small = 10usize;
+    let mid = s.bs * 3 / 10; // 614 of 2048
+    let big = s.bs - 2 * s.bs / 8 - small - 26; // 1500 of 2048: small + big fill a block, medium does not fit behind them
+    let menu = vec![small, 128, mid, big];
+    let mut roots: Vec<Vec<Op>> = vec![];
+    let mut cur: Vec<Vec<usize>> = vec![vec![]];
+    for depth in 0..(if thorough { 4 } else { 3 }) {
+        let mut nxt = vec![];
+        for l in cur.iter() {
+            for m in menu.iter() {
+                let mut x = l.clone();
+                x.push(*m);
+                nxt.push(x);
+            }
+        }
+        if depth >= 1 {
+            for l in nxt.iter() {
+                roots.push(l.iter().map(|len| Op::Append { t: 0, len: *len }).collect());
+            }
+        }
+        cur = nxt;
+    }
+    let budgets: Vec<usize> = vec![small, 127, 128, 129, mid - 1, mid, mid + 1, mid + small, big - 1, big, big + 1, big + small, 2 * mid];
+    Spec {
+        prop: "C01",
+        cfgs: if thorough { vec![strict_fd(), Config::new(Consistency::Strict, Backend::Mmap), Config::new(Consistency::Alo(2), Backend::Fd)] } else { vec![strict_fd()] },
+        roots,
+        alphabet: Box::new(move |_m: &Model, h: &[Op]| {
+            // the first read picks the budget, later reads repeat it
+            match h.iter().rev().find_map(|o| if let Op::BatchRead { budget, .. } = o { Some(*budget) } else { None }) {
+                Some(b) => vec![Op::BatchRead { t: 0, budget: b, ckpt: true, start: None }],
+                None => budgets.iter().map(|b| Op::BatchRead { t: 0, budget: *b, ckpt: true, start: None }).collect(),
+            }
+        }),
+        max_depth: if thorough { 4 } else { 3 },
+        owned: vec!["read.order", "read.empty", "read.err", "read.panic", "crash"],
+        dedup: false,
+        time_cap_s: if thorough { 300.0 } else { 12.0 },
+        extra: None,
+        digest_each: false,
+        want_listing: false,
+        isolate: false,
+        owns_if: None,
+        diff_cfg: None,
+        probe: None,
+        tails: vec![vec![Op::Drain { t: 0 }]],
+    }
+}
+
+/// C06, second family: layouts that end exactly at (or one byte around) a block boundary -
+/// a zero-length entry in the last header-sized slot, entries filling a one-unit or a two-unit
+/// block to the byte - followed by every sequence of up to 2 (thorough 3) reads, appends,
+/// reopen and restart, with drain tails before and after a further restart.
+pub fn c06_boundary_spec(tier: &str) -> Spec {
+    let s = sizes();
+    let thorough = tier_is_thorough(tier);
+    let h = s.bs - s.fill; // header size
+    let a = s.fill - h; // leaves exactly one header-sized slot
+    let ap = |len: usize| Op::Append { t: 0, len };
+    let roots = vec![
+        vec![ap(a), ap(0)],
+        vec![ap(a - 1), ap(0)],
+        vec![ap(a + 1), ap(0)],
+        vec![ap(a), ap(0), ap(1)],
+        vec![ap(a), ap(0), ap(0)],
+        vec![ap(s.fill)],
+        vec![ap(s.fill), ap(0)],
+        vec![ap(s.half), ap(s.half)],
+        vec![ap(s.over), ap(s.fill - 1)],
+        vec![ap(s.over), ap(s.fill - 1 - h), ap(0)],
+        vec![Op::Batch { t: 0, lens: vec![a, 0] }],
+        vec![Op::Batch { t: 0, lens: vec![a, 0, 0] }],
+    ];
+    let max_restarts = if thorough { 3 } else { 2 };
+    Spec {
+        prop: "C06",
+        cfgs: if thorough { vec![strict_fd(), Config::new(Consistency::Strict, Backend::Mmap), Config::new(Consistency::Alo(2), Backend::Fd)] } else { vec![strict_fd(), Config::new(Consistency::Strict, Backend::Mmap)] },
+        roots,
+        alphabet: Box::new(move |m: &Model, _h: &[Op]| {
+            let mut v = vec![
+                Op::ReadNext { t: 0, ckpt: true },
+                Op::BatchRead { t: 0, budget: usize::MAX, ckpt: true, start: None },
+                Op::BatchRead { t: 0, budget: 1, ckpt: true, start: None },
+                Op::Append { t: 0, len: 0 },
+                Op::Append { t: 0, len: 1 },
+            ];
+            if m.restarts < max_restarts {
+                v.push(Op::Reopen);
+                v.push(Op::Restart);
+            }
+            v
+        }),
+        max_depth: if thorough { 3 } else { 2 },
+        owned: vec!["read.order", "read.empty", "read.err", "read.panic", "reopen.err", "reopen.panic", "count", "crash"],
+        dedup: true,
+        time_cap_s: if thorough { 300.0 } else { 12.0 },
+        extra: None,
+        digest_each: false,
+        want_listing: false,
+        isolate: false,
+        owns_if: Some(Box::new(|_pre: &Model, ops: &[Op]| ops.iter().any(|o| matches!(o, Op::Reopen | Op::Restart)))),
+        diff_cfg: None,
+        probe: None,
+        tails: vec![vec![Op::Drain { t: 0 }], vec![Op::Restart, Op::Drain { t: 0 }]],
+    }
+}
+
+/// Adds the outcome of a second exploration of the same property to the first.
+pub fn merge_outcome(a: &mut crate::explore::Outcome, b: crate::explore::Outcome, label: &str) {
+    a.stats.states += b.stats.states;
+    a.stats.transitions += b.stats.transitions;
+    a.stats.merged += b.stats.merged;
+    a.stats.pruned_known += b.stats.pruned_known;
+    a.stats.pruned_foreign += b.stats.pruned_foreign;
+    a.stats.nondeterminism += b.stats.nondeterminism;
+    a.stats.distinct_outcomes += b.stats.distinct_outcomes;
+    a.stats.exhaustive &= b.stats.exhaustive;
+    if a.stats.cap_hit.is_none() {
+        a.stats.cap_hit = b.stats.cap_hit.map(|c| format!("{}: {}", label, c));
+    }
+    a.stats.machinery_errors.extend(b.stats.machinery_errors);
+    for (k, v) in b.stats.per_config {
+        a.stats.per_config.insert(format!("{}/{}", label, k), v);
+    }
+    for (k, v) in b.stats.known_hits {
+        *a.stats.known_hits.entry(k).or_insert(0) += v;
+    }
+    for (k, v) in b.stats.foreign_classes {
+        *a.stats.foreign_classes.entry(k).or_insert(0) += v;
+    }
+    a.stats.samples.extend(b.stats.samples.into_iter().take(3));
+    a.stats.violations += b.stats.violations;
+    a.violations.extend(b.violations);
+    a.known_lines.extend(b.known_lines);
+}
+
 pub fn spec_for(prop: &str, tier: &str) -> Option<Spec> {
     let s = sizes();
     let thorough = tier_is_thorough(tier);
     match prop {
         "C01" => {
-            let (half, fill, over, onehalf, bs) = (s.half, s.fill, s.over, s.onehalf, s.bs);
+            let (half, fill, over, onehalf, bs, max_alloc) = (s.half, s.fill, s.over, s.onehalf, s.bs, s.max_alloc);
             let cfgs = if thorough {
                 all_cfgs()
             } else {
@@ -78,6 +222,8 @@ pub fn spec_for(prop: &str, tier: &str) -> Option<Spec> {
                         Op::Append { t: 0, len: half },
                         Op::Append { t: 0, len: fill },
                         Op::Append { t: 0, len: over },
+                        // the largest entry the allocator accepts (four units: a file of its own)
+                        Op::Append { t: 0, len: max_alloc - 256 },
                         Op::Append { t: 1, len: half },
                         Op::Batch { t: 0, lens: vec![1, half] },
                         Op::Batch { t: 0, lens: vec![half, half, 127] },
@@ -272,7 +418,8 @@ pub fn spec_for(prop: &str, tier: &str) -> Option<Spec> {
                         v.push(Op::Append { t: 0, len: 0 });
                     }
                     if failing {
-                        v.push(Op::Append { t: 0, len: max_alloc });
+                        // one byte over the allocation cap
+                        v.push(Op::Append { t: 0, len: max_alloc - 255 });
                         v.push(Op::BatchN { t: 0, n: 2001, len: 0 });
                         v.push(Op::Batch { t: 0, lens: vec![] });
                         if prop_s == "C04" {
@@ -451,6 +598,20 @@ pub fn spec_for(prop: &str, tier: &str) -> Option<Spec> {
                     vec![af(0), af(0), af(1), af(0), af(1), af(0)],
                     // file 1 entirely of topic a, tail in file 2
                     vec![af(0), af(0), af(0), af(0), af(0)],
+                    // file 1 = a,a,b,a with two entries in a's last block; b's rotation opens file 2
+                    // (roll-over through the sealing writer), b rotates once more and is drained:
+                    // every block of file 1 is sealed, b's are consumed, a's are not
+                    vec![
+                        af(0),
+                        af(0),
+                        af(1),
+                        Op::Append { t: 0, len: s.half },
+                        Op::Append { t: 0, len: s.half },
+                        af(1),
+                        af(1),
+                        af(0),
+                        Op::Drain { t: 1 },
+                    ],
                     // cursor parked at the end of a sealed block, polled without progress
                     vec![
                         af(0),
@@ -687,6 +848,14 @@ pub fn run_check(prop: &str, tier: &str) -> i32 {
             return 2;
         };
         let mut out = explore(&pool, &spec, &kf);
+        if prop == "C01" && out.violations.is_empty() {
+            let out2 = explore(&pool, &c01_product_spec(tier), &kf);
+            merge_outcome(&mut out, out2, "layouts-x-budgets");
+        }
+        if prop == "C06" && out.violations.is_empty() {
+            let out2 = explore(&pool, &c06_boundary_spec(tier), &kf);
+            merge_outcome(&mut out, out2, "block-boundary-layouts");
+        }
         if prop == "C04" && out.violations.is_empty() {
             // part (b): injected I/O failures, with whatever the BFS left of the time budget
             let cap = if tier_is_thorough(tier) { 600.0 } else { 25.0 };
@@ -696,6 +865,12 @@ pub fn run_check(prop: &str, tier: &str) -> i32 {
             "BFS over op sequences (alphabet and roots in DESIGN.md section {}), depth <= {}, one execution of the real engine per transition; a state is distinct when (engine digest, model state) is new; non-trivial = survived the oracle and was not merged",
             prop, spec.max_depth
         );
+        if prop == "C01" {
+            rule.push_str("; plus a product family (per_config keys layouts-x-budgets/<config>): every layout of 2..3 (thorough 4) entries over {10, 128, 0.3 block, 0.73 block} bytes x 13 byte budgets around those sizes, drained by repeated consuming batch reads with that budget (depth 3, thorough 4) and a final drain");
+        }
+        if prop == "C06" {
+            rule.push_str("; plus a block-boundary family (per_config keys block-boundary-layouts/<config>): 12 layouts ending exactly at, one byte before and one byte behind a block boundary (zero-length entry in the last header-sized slot, entries filling a one-unit or two-unit block to the byte, as appends and as batches) x every sequence of up to 2 (thorough 3) reads / appends / reopen / restart, with drain tails before and after a further restart");
+        }
         if prop == "C04" {
             rule.push_str("; plus fault enumeration: 3 prefixes x 7 appends/batches (one to nine entries, one to three blocks, file roll-over) x every placement of one (thorough: also every pair of) injected failure(s) at the seams the operation passes (k-th flush, k-th file creation, io_uring submission, negative and short completion of every entry of the batch) x {in-process, restart} tails, each executed on the real engine and stepped through the model that ignores failed appends (per_config keys faults/<config>: placements, executions)");
         }
